@@ -63,7 +63,7 @@ static Json genC15(const std::string &prop, uint64_t seed, const std::string &ti
 
 static Json genC20Frame(uint64_t seed, const std::string &tier);
 static Json genC20(const std::string &prop, uint64_t seed, const std::string &tier) {
-    if (seed % 4 == 3) return genC20Frame(seed, tier);          // frame clauses: twin sessions, one execution
+    if (seed % 3 == 2) return genC20Frame(seed, tier);          // frame clauses: twin sessions, one execution
     Rng r(Rng::mix(seed, "plan"));
     Json p = planSkeleton(prop, "mix", seed, r, 300);
     // force real interleaving: noise runs into every yield of the subject
@@ -132,6 +132,7 @@ static Json genC20Frame(uint64_t seed, const std::string &tier) {
     if (g.ortho) { g.params[P_nudgeDist] = r.pick(std::vector<double>{0, 4}); g.options[O_nudgeAttached] = false; }
     g.selective = true; g.invis = r.chance(0.8); g.lees = r.chance(0.7);
     g.styleExtra = "frame-twin";
+    if (r.chance(0.5)) { g.edgePoints = 0.5; g.polygons = false; g.wMove = 0; g.wReshape = 0; g.wAdd = 30; g.wMoveEnd = 40; g.styleExtra = "frame-twin+end-points-on-shape-sides"; }   // end points exactly on shape sides (shapes stay put)
     if (tier == "thorough") { g.maxShapes = 10; g.maxConns = 8; }
     Json a = genRouterSession(r, g);
     { Json cfg = a["cfg"]; Json tw = Json::obj(); tw.set("of", -1); cfg.set("twin", tw); a.set("cfg", cfg); }
